@@ -208,6 +208,7 @@ func runC19(r *Run, stratum string) *Violation {
 		if viol == nil {
 			viol = &Violation{Property: "C19", Rule: rule, Sig: sig, Msg: fmt.Sprintf(format, a...)}
 			r.Logf("VIOLATION %s: %s", rule, viol.Msg)
+			dumpStacksOnViolation(rule)
 		}
 	}
 	// oracle state
